@@ -70,7 +70,7 @@ func (g *Gen) Token() string {
 	return fmt.Sprintf("zq%dx%s", g.serial, g.letters(g.rng(5, 7)))
 }
 
-var dressings = []string{"ascii", "ascii", "ascii", "space", "unicode", "astral", "dollar", "digits", "escape", "html", "long", "empty", "jsonish", "b64ish", "upper", "pad", "pademail"}
+var dressings = []string{"ascii", "ascii", "ascii", "space", "unicode", "astral", "dollar", "digits", "escape", "html", "long", "empty", "jsonish", "b64ish", "upper", "pad", "pademail", "bslash"}
 
 // SensString returns the contents of a sensitive ordinary string.
 func (g *Gen) SensString() string {
@@ -121,6 +121,10 @@ func (g *Gen) Dress(d string) string {
 		return base64.StdEncoding.EncodeToString([]byte(t + t))
 	case "upper":
 		return strings.ToUpper(t)
+	case "bslash":
+		// a literal that ENDS with a backslash (Windows paths, DOMAIN\\user): the JSON text
+		// then ends in \\" — a trap for hand-written string scanners
+		return g.pick("C:\\data\\", "DOM\\", "") + t + "\\"
 	case "pademail":
 		// an address with stray surrounding white space is an ORDINARY string
 		// (not e-mail-shaped) whose exact bytes must survive a decrypt round trip
